@@ -397,6 +397,9 @@ type Campaign[S any] struct {
 	// Key, if set, gives the value hashed for the distinct count (default: the
 	// scenario's JSON).
 	Key func(s S) any
+	// ShrinkTime overrides the time rapid may spend on shrinking a failure (default 20s); campaigns
+	// whose failing cases are slow (real-time waits) and already small set it to next to nothing.
+	ShrinkTime string
 }
 
 func (c *Campaign[S]) Register() {
@@ -427,6 +430,9 @@ func (c *Campaign[S]) Check(t *testing.T) {
 	flag.Set("rapid.seed", strconv.FormatUint(RapidSeed(c.Sub), 10))
 	flag.Set("rapid.nofailfile", "true")
 	flag.Set("rapid.shrinktime", "20s")
+	if c.ShrinkTime != "" {
+		flag.Set("rapid.shrinktime", c.ShrinkTime)
+	}
 	rec := NewRec(c.Prop, c.Sub, c.Rule)
 	rec.Set("requested", n)
 	var lastS *S
